@@ -24,13 +24,25 @@ punctuation, letters of scripts without case, titlecase letters) is caseless. -/
 def charCase (c : Char) : TokCase :=
   if isUpperN c then .upper else if isLowerN c then .lower else .caseless
 
-/-- case of a special character `\cs…`: the case of the first letter after the control
-sequence (= after the first non-letter that follows the backslash); none ⇒ caseless. -/
+/-- BibTeX's built-in foreign characters (bibtex.web §§ 397–401 `von_token_found`, pre-defined `control_seq_ilk` entries): the
+case of a special character whose control sequence is one of these thirteen is looked up, not
+searched for: `\i \j \oe \ae \aa \o \l \ss` are lower case, `\OE \AE \AA \O \L` upper case. -/
+def builtinCase (cs : Str) : Option TokCase :=
+  if cs ∈ ["i", "j", "oe", "ae", "aa", "o", "l", "ss"].map String.toList then some .lower
+  else if cs ∈ ["OE", "AE", "AA", "O", "L"].map String.toList then some .upper
+  else none
+
+/-- case of a special character `\cs…`: the case of a built-in foreign character if the control
+sequence (the letters after the backslash) is one; otherwise the case of the first letter after
+the control sequence (= after the first non-letter that follows the backslash); none ⇒ caseless. -/
 def specialCase (sc : Str) : TokCase :=
-  let afterCs := (sc.drop 1).dropWhile isAlphaN     -- starts at the first non-letter (or is empty)
-  match (afterCs.drop 1).find? isAlphaN with
-  | some c => charCase c
-  | none => .caseless
+  match builtinCase ((sc.drop 1).takeWhile isAlphaN) with
+  | some c => c
+  | none =>
+    let afterCs := (sc.drop 1).dropWhile isAlphaN     -- starts at the first non-letter (or is empty)
+    match (afterCs.drop 1).find? isAlphaN with
+    | some c => charCase c
+    | none => .caseless
 
 /-- case decided by the scan: the first brace-level-0 letter (a level-0 token is one
 character: `charCase` of it; a letter without case makes the token caseless), or the first
@@ -43,18 +55,22 @@ def tokCaseOf : List Tok → TokCase
     else if l = 1 ∧ startsWithBackslash t then specialCase t
     else tokCaseOf r
 
-/-- The case of a token.  A token whose first character is cased has that case (for a letter
-this is what the scan gives as well, `Names.tokenCase_eq_scan`; a cased character that is not a
-letter counts in this position only); otherwise the first brace-level-0 letter or special
-character decides.  `none` when the token nests braces deeper than BibTeX's limit. -/
-def tokenCase (tok : Str) : Option TokCase :=
-  (scan tok).map fun toks =>
-    match tok.head?.map charCase with
-    | some .upper => .upper
-    | some .lower => .lower
-    | _ => tokCaseOf toks
+/-- The case of a token.  A token whose first character is cased has that case, whatever
+follows (for a letter this is what the scan gives as well, `Names.tokenCase_eq_scan`; a cased
+character that is not a letter counts in this position only); otherwise the first
+brace-level-0 letter or special character decides.  A token that nests braces deeper than the
+scanner follows them (`maxLevel` = 100; BibTeX has no such limit, its limits are buffer sizes)
+and does not start with a cased character has no case. -/
+def tokenCase (tok : Str) : TokCase :=
+  match tok.head?.map charCase with
+  | some .upper => .upper
+  | some .lower => .lower
+  | _ =>
+    match scan tok with
+    | some toks => tokCaseOf toks
+    | none => .caseless
 
-def isLow (tok : Str) : Bool := tokenCase tok = some .lower
+def isLow (tok : Str) : Bool := tokenCase tok = .lower
 
 /-- index of the last element satisfying `p`. -/
 def lastIdx (p : α → Bool) (l : List α) : Option Nat :=
@@ -106,11 +122,58 @@ def caseTokens (name : Str) : List Str :=
   | [_] => splitTex .space name
   | a :: _ => (splitTex .space a).dropLast
 
-/-- The case of the token is decidable within BibTeX's brace-nesting limit: the token scans,
-or it starts with an upper-case character (then it is upper-case whatever follows). -/
+/-- The token's case is found without running into the scanner's brace-nesting limit: the token
+scans, or it starts with an upper-case character.  (No theorem of C04 needs this any more — after
+the repair C04-1 model and rule agree on every token; kept for the statements of C02.) -/
 def caseKnown (tok : Str) : Bool :=
   (match tok with
    | c :: _ => isUpperN c
    | [] => false) || (scan tok).isSome
+
+/-! ### the tokeniser, stated from the property text
+
+"split into tokens at brace-level-0 whitespace and ties … braced groups are never split": one
+left-to-right pass that only counts braces — independent of the algorithm of `split_tex_string`
+(`partition('{')` / `re.split` / `_find_closing_brace`, modelled by `splitTex`).  Used by the
+oracle as the reference for the tokens of a name whose brace groups are all closed
+(`groupsClosed`; on a string with an unclosed group the code treats the text after the last
+brace as brace-level 0, which the property text does not describe). -/
+
+/-- length of the token separator at the head of the text (0 = none): a control space `\ ` (2),
+a white-space character (1), a tie `~` that is not the accent `\~` (1). -/
+def nameSepAt (prev : Option Char) : Str → Nat
+  | '\\' :: ' ' :: _ => 2
+  | c :: _ => if isWs c || (c == '~' && prev != some '\\') then 1 else 0
+  | [] => 0
+
+/-- `d` = brace level, `skip` = characters of the current separator still to pass, `prev` = the
+previous character, `cur` = the token collected so far. -/
+def nameTokensAux : Nat → Nat → Option Char → Str → Str → List Str
+  | _, _, _, cur, [] => if cur = [] then [] else [cur]
+  | d, skip + 1, _, cur, c :: r => nameTokensAux d skip (some c) cur r
+  | d, 0, prev, cur, c :: r =>
+    if c = '{' then nameTokensAux (d + 1) 0 (some c) (cur ++ [c]) r
+    else if c = '}' then nameTokensAux (d - 1) 0 (some c) (cur ++ [c]) r
+    else if d = 0 ∧ nameSepAt prev (c :: r) > 0 then
+      (if cur = [] then [] else [cur]) ++ nameTokensAux 0 (nameSepAt prev (c :: r) - 1) (some c) [] r
+    else nameTokensAux d 0 (some c) (cur ++ [c]) r
+
+/-- the tokens of a text: the maximal pieces between brace-level-0 separators, in order -/
+def nameTokens (s : Str) : List Str := nameTokensAux 0 0 none [] s
+
+/-- comma parts: the pieces between brace-level-0 commas (white space around each removed) -/
+def nameCommaPartsAux : Nat → Str → Str → List Str
+  | _, cur, [] => [strip cur]
+  | d, cur, c :: r =>
+    if c = '{' then nameCommaPartsAux (d + 1) (cur ++ [c]) r
+    else if c = '}' then nameCommaPartsAux (d - 1) (cur ++ [c]) r
+    else if d = 0 ∧ c = ',' then strip cur :: nameCommaPartsAux 0 [] r
+    else nameCommaPartsAux d (cur ++ [c]) r
+
+def nameCommaParts (s : Str) : List Str := if s = [] then [] else nameCommaPartsAux 0 [] s
+
+/-- every brace group of the text is closed (a `}` at brace level 0 is an ordinary character) -/
+def groupsClosed (s : Str) : Bool :=
+  s.foldl (fun d c => if c = '{' then d + 1 else if c = '}' then d - 1 else d) 0 = 0
 
 end Pybtex.Spec
